@@ -2840,7 +2840,9 @@ func (b *builder) rangeFunc(fn *Function, x Value, rng *ast.RangeStmt, label *lb
 		},
 	}
 	call.setType(xsig.Results())
-	fn.emit(&call, nil)
+	// The range statement is the source of the call, so that diagnostics
+	// about the call have a position.
+	fn.emit(&call, rng)
 
 	exits := fn.exits[unresolved:]
 	b.buildYieldResume(fn, jump, exits, done)
